@@ -166,14 +166,30 @@ def check_lt(ctx: RuleCtx, sc: SiteScanner, mod: Module, cls: ast.ClassDef, user
     m, c, fn = fm
     qual = f'{c.name}.__lt__'
     eq = repo.find_method(mod, cls, '__eq__')
-    if eq is None:
-        ctx.note(f'{qual}: class has no __eq__ in the repository (identity / generated equality): consistency not decided; used by {users[:3]}')
-        return
     E: T.Set[str] = set()
-    for st in eq[2].body:
-        E |= _self_fields(eq[0], eq[1], repo, st, 'self')
+    basis = '__eq__'
+    if eq is None:
+        # functools.total_ordering derives <=, >, >= from < and ==; with the inherited identity == two distinct instances that tie under <
+        # are neither <= nor >= each other.  The class therefore promises that < separates any two instances built from different
+        # constructor arguments: the fields bound directly from __init__ parameters take the place of the __eq__ fields.
+        from ..core import decorator_names
+        init = repo.find_method(mod, cls, '__init__')
+        if not any(d.split('.')[-1] == 'total_ordering' for d in decorator_names(cls)) or init is None:
+            ctx.note(f'{qual}: class has no __eq__ in the repository (identity / generated equality) and is not a total_ordering value class: '
+                     f'consistency not decided; used by {users[:3]}')
+            return
+        params = {a.arg for a in init[2].args.posonlyargs + init[2].args.args + init[2].args.kwonlyargs}
+        for n in ast.walk(init[2]):
+            if isinstance(n, ast.Assign) and isinstance(n.value, ast.Name) and n.value.id in params:
+                for t in n.targets:
+                    if isinstance(t, ast.Attribute) and attr_chain(t.value) == 'self':
+                        E.add(t.attr)
+        basis = 'the constructor arguments (total_ordering class with identity ==)'
+    else:
+        for st in eq[2].body:
+            E |= _self_fields(eq[0], eq[1], repo, st, 'self')
     if not E:
-        raise Undecided(f'{c.name}.__eq__ reads no field of self')
+        raise Undecided(f'{c.name}: no identifying field found ({basis})')
     tab = tables.extract(fn, bool_returns=True, name=qual)
     rows = []
     for r in tab.rows:
@@ -217,9 +233,8 @@ def check_lt(ctx: RuleCtx, sc: SiteScanner, mod: Module, cls: ast.ClassDef, user
     for p in preds + sorted({p for p, _ in order.values()}):
         e = ast.parse(p.replace('@', 'self'), mode='eval').body
         pfields[p] = _self_fields(m, c, repo, e, 'self')
-    for p, _ in order.values():
-        if not pfields[p] <= E:
-            raise Undecided(f'{qual}: orders by {sorted(pfields[p] - E)} which __eq__ does not read')
+    # a projection may read more fields than __eq__ (a finer order); what matters below is that every __eq__ field is either compared
+    # or pinned equal by the row's conditions
 
     def compatible(r: tables.Row, sa: T.Dict[str, bool], sb: T.Dict[str, bool]) -> bool:
         for a, v in r.conds.items():
@@ -280,14 +295,14 @@ def check_lt(ctx: RuleCtx, sc: SiteScanner, mod: Module, cls: ast.ClassDef, user
                     free = sorted(E - keq)
                     # the row cannot tell equal operands (must be False/False) from different ones (exactly one True)
                     msg = (f'the result for ({case}) is the constant {c1} although the operands can still differ in {free} '
-                           f'(fields read by __eq__): two distinct keys are mutually not-less, sorted() is not a sanitiser')
+                           f'(fields of {basis}): two distinct values are mutually not-less, a stable sorted() keeps them in their incoming order')
                 if msg:
                     bad.setdefault(repr(f1[0]), (f1[0], msg))
     for key, (row, msg) in bad.items():
         node = row.path.events[-1].node if row.path.events else fn
         ctx.violation(m, qual, key, f'{msg}. Reaches un-keyed sorted()/min()/max() in {users[:4]}', node)
     if not bad:
-        ctx.ok(f'{qual}: strict total order consistent with __eq__ over fields {sorted(E)} on {worlds} abstract operand pairs ({len(rows)} rows)')
+        ctx.ok(f'{qual}: strict total order consistent with {basis} over fields {sorted(E)} on {worlds} abstract operand pairs ({len(rows)} rows)')
     ctx.note(f'{qual}: table {tab.dump()}')
 
 
@@ -343,3 +358,24 @@ def check(ctx: RuleCtx, sc: SiteScanner, modules: T.List[str]) -> None:
     for key in sorted(per_class):
         cm, cc, users = per_class[key]
         check_lt(ctx, sc, cm, cc, sorted(set(users)))
+    # every other repository class that defines __lt__: its instances can meet a stable sort anywhere (lists built from directory
+    # listings, dict items ...); shapes the table check cannot read are recorded, not judged
+    extra = 0
+    for rel in repo.py_files('mesonbuild'):
+        if 'def __lt__' not in repo.read(rel):       # text pre-filter only: which files are worth parsing
+            continue
+        mod = repo.module(rel)
+        for q, cls in mod.classes().items():
+            own = [st for st in cls.body if isinstance(st, (ast.FunctionDef, ast.AsyncFunctionDef)) and st.name == '__lt__']
+            if not own or (rel, cls.name) in per_class:
+                continue
+            if len(own[0].body) == 1 and isinstance(own[0].body[0], ast.Expr) and isinstance(own[0].body[0].value, ast.Constant):
+                continue        # protocol stub `...`
+            extra += 1
+            before = len(ctx.findings)
+            try:
+                check_lt(ctx, sc, mod, cls, [f'{rel}:{cls.name} (any sort of its instances)'])
+            except Undecided as e:
+                del ctx.findings[before:]
+                ctx.note(f'{rel}:{cls.name}.__lt__: not decided ({e})')
+    ctx.floor('further repository classes with __lt__ examined', extra, 4)
